@@ -241,6 +241,14 @@ def run(prog, chk):
     if rewind_rule(prog, r11) < 1:
         raise Broken("no rewind of next_char to text_start found outside the refill functions")
 
+    r12 = chk.rule("R12-tolerated-codes-share-the-ok-arm", "a code the recovery rules say the parser tolerates after the errors "
+                   "behind it were accepted (CIF_NULL_LOOP from creating a loop whose names were all refused as duplicates) has "
+                   "its case label in the arm of CIF_OK of the switch on that call's result (shared with C03 R2b)",
+                   primary=False, floor=1)
+    from . import c03
+    if c03.tolerated_codes(prog, r12) < 1:
+        raise Broken("no call site with a tolerated code found")
+
     r7 = chk.rule("R7-disallowed-character-class", "the per-character validation macro reports each non-character code unit (U+FEFF, "
                   "U+FFFE/F, U+FDD0..FDEF) as CIF_DISALLOWED_CHAR and no ordinary character, in every scan function "
                   "(evaluated over the CFG for chosen code units)", primary=False, floor=5)
